@@ -1508,6 +1508,9 @@ def hygiene_rules(model: Model, fc: FnCls, prop: str, min_copies: int = 1, min_o
     ac12_saved_output_identity(fc, R12)
     out.append(R12)
     if "TensorNonTensorSeparator" in ast.unparse(fc.forward.node):
+        R15 = RuleResult(prop, "AC15", "backward returns the gradients at the positions the separator took the tensors from", min_instances=1)
+        ac15_gradient_scatter(model, fc, R15)
+        out.append(R15)
         SEP = RuleResult(prop, "AC-SEP", "TensorNonTensorSeparator.reconstruct_params scatters both groups back to their recorded positions (inverse of the split)", min_instances=4)
         separator_inverse(model, SEP)
         out.append(SEP)
@@ -1590,27 +1593,7 @@ def ac10_index_space(fc: FnCls, R: RuleResult) -> int:
     mod = fc.backward.module
     count_names = {"nparams", "nfparams", "npparams"} & (set(fc.fixed) | {"nparams", "nfparams", "npparams"})
     fns = [f for f in mod.functions.values() if f is fc.backward or f is fc.forward or f.qualname.startswith(fc.backward.qualname + ".")]
-    # list space by name, flow-insensitive over backward and its closures (names are unique enough inside one backward)
-    space: Dict[str, str] = {}
-    if fc.vararg:
-        space[fc.vararg] = "full"
-    changed = True
-    it = 0
-    while changed and it < 6:
-        changed = False
-        it += 1
-        for f in fns:
-            for s in ast.walk(f.node):
-                if not (isinstance(s, ast.Assign) and len(s.targets) == 1 and isinstance(s.targets[0], ast.Name)):
-                    continue
-                nm, v = s.targets[0].id, s.value
-                sp = _space_of(v, space)
-                if sp is not None and space.get(nm) != sp:
-                    if nm in space and space[nm] != sp:
-                        space[nm] = "mixed"
-                    else:
-                        space[nm] = sp
-                    changed = True
+    space = _list_spaces(fc, fns)
     for f in fns:
         cn = {c for c in count_names}
         # local aliases of the counts: nparams = ctx.nparams
@@ -1636,6 +1619,32 @@ def ac10_index_space(fc: FnCls, R: RuleResult) -> int:
     return n
 
 
+def _list_spaces(fc: FnCls, fns) -> Dict[str, str]:
+    """list space by name ('full' argument space / 'tensor'-only space / 'mixed'), flow-insensitive over backward and its closures (names
+    are unique enough inside one backward)"""
+    space: Dict[str, str] = {}
+    if fc.vararg:
+        space[fc.vararg] = "full"
+    changed = True
+    it = 0
+    while changed and it < 6:
+        changed = False
+        it += 1
+        for f in fns:
+            for s in ast.walk(f.node):
+                if not (isinstance(s, ast.Assign) and len(s.targets) == 1 and isinstance(s.targets[0], ast.Name)):
+                    continue
+                nm, v = s.targets[0].id, s.value
+                sp = _space_of(v, space)
+                if sp is not None and space.get(nm) != sp:
+                    if nm in space and space[nm] != sp:
+                        space[nm] = "mixed"
+                    else:
+                        space[nm] = sp
+                    changed = True
+    return space
+
+
 def _space_of(v: ast.AST, space: Dict[str, str]) -> Optional[str]:
     src = ast.unparse(v)
     if isinstance(v, ast.Call):
@@ -1646,6 +1655,9 @@ def _space_of(v: ast.AST, space: Dict[str, str]) -> Optional[str]:
             return "tensor"
         if fn in ("list", "tuple") and v.args:
             return _space_of(v.args[0], space)
+        if is_autograd_grad(v):
+            inp = _kw(v, "inputs") or (v.args[1] if len(v.args) > 1 else None)
+            return _space_of(inp, space) if inp is not None else None
     if "saved_tensors" in src and not isinstance(v, ast.Call):
         return "tensor"
     if isinstance(v, ast.Name):
@@ -1654,6 +1666,154 @@ def _space_of(v: ast.AST, space: Dict[str, str]) -> Optional[str]:
         return space.get(v.value.id)
     if isinstance(v, ast.ListComp) and len(v.generators) == 1 and isinstance(v.generators[0].iter, ast.Name):
         return space.get(v.generators[0].iter.id)
+    return None
+
+
+# ---------------------------------------------------------------------------------------------------- AC15
+def ac15_gradient_scatter(model: Model, fc: FnCls, R: RuleResult) -> int:
+    """The gradients of a Function whose forward split its arguments with a TensorNonTensorSeparator are computed for the tensor group
+    only; backward must return them at the positions *that separator* took the tensors from (None elsewhere).  `<sep>.reconstruct_params(
+    grads, nones)` does that by construction (AC-SEP decides the method).  Any other way of building the returned list is evaluated
+    abstractly: the statements that build it are run (domains/kinds.py) on a symbolic argument list that mixes differentiable tensors,
+    tensors that do not require grad and non-tensors, with the separator's own __init__ deciding the split - a scatter by a different
+    classification (e.g. isinstance alone) puts gradients at the wrong arguments as soon as a parameter is a tensor without grad."""
+    from ..domains.dictsem import Tok, Unsupported, Raised, ADict
+    from ..domains.kinds import KindInterp, AObj
+    bw = fc.backward
+    rets = [r for r in own_nodes(bw.node) if isinstance(r, ast.Return) and isinstance(r.value, ast.Tuple)]
+    defs = function_defs(bw.node)
+    n = 0
+    for r in rets:
+        for st in [e for e in r.value.elts if isinstance(e, ast.Starred)]:
+            n += 1
+            v = st.value
+            what = "%s returns *%s" % (bw.qualname, ast.unparse(v)[:50])
+            srcs = defs.get(v.id, []) if isinstance(v, ast.Name) else [v]
+            if srcs and all(isinstance(d, ast.Call) and isinstance(d.func, ast.Attribute) and d.func.attr == "reconstruct_params" for d in srcs):
+                R.ok(bw.fq, what + " = %s: laid out by the separator that made the split" % ast.unparse(srcs[0])[:70])
+                continue
+            if not isinstance(v, ast.Name):
+                R.undecided(bw, r, "cannot identify how the returned gradient list `%s` is laid out" % ast.unparse(v)[:60], what=what)
+                continue
+            try:
+                msg = _abstract_scatter(model, fc, v.id, Tok, KindInterp, AObj, ADict)
+            except (Unsupported, TypeError, AttributeError, KeyError, IndexError, ValueError) as e:
+                R.undecided(bw, r, "cannot interpret how the returned gradient list `%s` is built (%s)" % (v.id, e), what=what)
+                continue
+            except Raised as e:
+                msg = "building the list raises (%s)" % e
+            if msg:
+                R.bad(bw, r, "the gradients are not returned at the positions of the arguments they belong to: %s" % msg, what=what)
+            else:
+                R.ok(bw.fq, what + ": built by hand; abstract run puts every gradient at the position the separator took its tensor from")
+    return n
+
+
+def _abstract_scatter(model, fc, name, Tok, KindInterp, AObj, ADict) -> Optional[str]:
+    bw = fc.backward
+    spaces = _list_spaces(fc, [bw, fc.forward])
+    # the statements that build `name`, cut at lists whose space is known and at the separator
+    top = [s for s in bw.node.body]
+
+    def flat(stmts):
+        for s in stmts:
+            if isinstance(s, ast.With):
+                yield from flat(s.body)
+            else:
+                yield s
+    stmts = list(flat(top))
+    needed = {name}
+    keep = []
+    sep_names = set()
+
+    def is_sep(e) -> bool:
+        t = ast.unparse(e)
+        return t.endswith("param_sep") or t in sep_names
+    for s in stmts:
+        if isinstance(s, ast.Assign) and len(s.targets) == 1 and isinstance(s.targets[0], ast.Name) and isinstance(s.value, ast.Attribute) \
+                and s.value.attr.endswith("param_sep"):
+            sep_names.add(s.targets[0].id)
+    for s in reversed(stmts):
+        if isinstance(s, (ast.FunctionDef, ast.Return)):
+            continue
+        stores = {x.id for x in ast.walk(s) if isinstance(x, ast.Name) and isinstance(x.ctx, ast.Store)}
+        stores |= {x.value.id for x in ast.walk(s) if isinstance(x, ast.Subscript) and isinstance(x.ctx, ast.Store) and isinstance(x.value, ast.Name)}
+        stores |= {x.func.value.id for x in ast.walk(s) if isinstance(x, ast.Call) and isinstance(x.func, ast.Attribute) and isinstance(x.func.value, ast.Name)
+                   and x.func.attr in ("append", "extend", "insert")}
+        if not (stores & needed):
+            continue
+        cut = isinstance(s, ast.Assign) and len(s.targets) == 1 and isinstance(s.targets[0], ast.Name) and \
+            (spaces.get(s.targets[0].id) in ("full", "tensor") or s.targets[0].id in sep_names) and s.targets[0].id != name
+        if cut:
+            continue
+        keep.append(s)
+        for x in ast.walk(s):
+            if isinstance(x, ast.Name) and isinstance(x.ctx, ast.Load):
+                needed.add(x.id)
+    keep.reverse()
+    if not keep:
+        raise ValueError("no statement builds it")
+    # the symbolic argument list and the split the separator's own constructor makes of it
+    T = lambda nm, rg=True: Tok(nm, True, rg)
+    N = lambda nm: Tok(nm, False, False)
+    params = [T("T1"), N("N1"), T("T2"), T("T3", False), N("N2"), T("T4")]
+    cls = model.cls("xitorch/_utils/misc.py", "TensorNonTensorSeparator")
+    init = cls.find_method("__init__")
+    ctor_kw = {}
+    for c in own_nodes(fc.forward.node):
+        if isinstance(c, ast.Call) and ast.unparse(c.func).split(".")[-1] == "TensorNonTensorSeparator":
+            for k in c.keywords:
+                if k.arg and isinstance(k.value, ast.Constant):
+                    ctor_kw[k.arg] = k.value.value
+    it = KindInterp({init.params()[1]: list(params), **{p_: ctor_kw.get(p_, True) for p_ in init.params()[2:3]}})
+    it.call_function(init.node)
+    sn = init.params()[0]
+    state = {k[len(sn) + 1:]: v for k, v in it.env.items() if k.startswith(sn + ".")}
+    gt = cls.find_method("get_tensor_params")
+    tens = KindInterp({gt.params()[0] + "." + k: v for k, v in state.items()}).call_function(gt.node)
+    tens_names = [t.name for t in tens]
+    want_pos = [i for i, p_ in enumerate(params) if p_.name in tens_names]
+
+    def method(mname):
+        m = cls.find_method(mname)
+
+        def run(*args):
+            ps = m.params()
+            env = {ps[0] + "." + k: v for k, v in state.items()}
+            for p_, a in zip(ps[1:], args):
+                env[p_] = a
+            for p_, d_ in zip(ps[::-1], list(m.node.args.defaults)[::-1]):
+                if p_ not in env:
+                    env[p_] = ast.literal_eval(d_)
+            return KindInterp(env).call_function(m.node)
+        return run
+    sep = AObj("separator", attrs=dict(state))
+    for mname in ("reconstruct_params", "get_tensor_params", "ntensors", "nnontensors"):
+        if cls.find_method(mname) is not None:
+            sep.methods[mname] = method(mname)
+    env: Dict[str, Any] = {}
+    for nm in needed:
+        if nm in sep_names:
+            env[nm] = sep
+        elif spaces.get(nm) == "full" and nm != name:
+            env[nm] = list(params)
+        elif spaces.get(nm) == "tensor" and nm != name:
+            env[nm] = [Tok("%s#%d" % (nm, k), True, True) for k in range(len(tens))]
+    env["ctx"] = AObj("ctx", attrs={a: sep for a in ("param_sep",)})
+    run = KindInterp(env)
+    run.run(keep)
+    res = run.env.get(name)
+    if not isinstance(res, (list, tuple)) or len(res) != len(params):
+        return "for the arguments %s the returned list is %s (one entry per argument is needed)" % (params, res)
+    for i, x in enumerate(res):
+        if i in want_pos:
+            k = want_pos.index(i)
+            if not (isinstance(x, Tok) and x.name.endswith("#%d" % k)):
+                return "for the arguments %s (differentiable tensors %s) the entry of argument %d (%s) is %s, not the %d-th gradient; the list is %s" % (
+                    params, tens_names, i, params[i], x, k, list(res))
+        elif x is not None:
+            return "for the arguments %s (differentiable tensors %s) argument %d (%s) is not in the tensor group but receives %s; the list is %s" % (
+                params, tens_names, i, params[i], x, list(res))
     return None
 
 
